@@ -541,6 +541,115 @@ def merge_semantics(prog, rep):
     rep.extra["merge_state_shapes"] = [sh.describe() for sh in shapes]
 
 
+BIDIGEN = "precis_tools::generators::bidi_class::BidiClassGen"
+
+
+def bidi_run_semantics(prog, rep):
+    """(viii) BidiClassGen::compress_into_ranges: for every ascending sequence of (entry, class) pairs — single
+    code points and First/Last ranges, any run structure of classes — the emitted (range, class) rows cover
+    exactly the input entries, each code point once, with its own class."""
+    from .. import accum as ac
+    from .. import linform as lf
+
+    key = BIDIGEN + "::compress_into_ranges"
+    rule = "bidi-run-semantics"
+    b = prog.body(key)
+    a = prog.adts.get(BIDIGEN)
+    if b is None or a is None:
+        rep.ob(rule, key, False, "function or type not found", key="%s|anchor" % rule)
+        return
+    rep.fn(key)
+    fields = a["variants"][0]["fields"]
+    vec_i = [i for i, f in enumerate(fields) if f["ty"].startswith("alloc::vec::Vec<(")]
+    if len(vec_i) != 1:
+        rep.ob(rule, "BidiClassGen has one vector of (entry, class) pairs", False, "fields: %s" % [f["ty"] for f in fields], key="%s|anchor" % rule)
+        return
+    from .. import types as ty_
+
+    world = ac.AccWorld(prog)
+    bad, ebad = [], []
+
+    def init_state():
+        st0 = ip.State()
+        vals = []
+        for i, f in enumerate(fields):
+            vals.append(ip.Opq("vec", ("input",)) if i == vec_i[0] else ty_.fresh(prog, f["ty"], ("self", i)))
+        st0.heap[("arg", 0)] = ip.Adt(BIDIGEN, 0, tuple(vals))
+        return st0
+
+    def letters_for(sh):
+        if sh.st.ext.get("v:C") is None:
+            return [("single", "new"), ("range", "new")]
+        return [("single", "same"), ("single", "new"), ("range", "same"), ("range", "new")]
+
+    def new_n(letter):
+        return ({"N": 1, "G": 1}, 1) if letter[0] == "single" else ({"N": 1, "G": 1, "W": 1}, 1)
+
+    def emitted(o):
+        return [(e[2], e[3], e[4] if len(e) > 4 else None) for e in o.state.events if e[0] == "emit"]
+
+    def on_step(sh, o):
+        letter = world.cur_letter
+        em = emitted(o)
+        u = lf.to_lf(o.state.ext["v:U"])
+        vv = o.state.ext.get("v:V")
+        cc = o.state.ext.get("v:C")
+        first = ({"N": 1, "G": 1}, 0)
+        last = first if letter[0] == "single" else ({"N": 1, "G": 1, "W": 1}, 0)
+        err, leaves = ac.cover_step_valued(o.state.facts, em, u, vv.tag if vv is not None else None, first, last, cc.tag)
+        if err is not None:
+            bad.append("%s entry of %s: %s  [state: %s]" % (letter[0], "the same class as the previous entry" if letter[1] == "same" else "a new class", err, sh.describe()))
+            return None
+        return leaves
+
+    def on_end(sh, o):
+        em = emitted(o)
+        u = lf.to_lf(o.state.ext["v:U"])
+        vv = o.state.ext.get("v:V")
+        n1 = ({"N": 1}, -1)
+
+        def pred(f):
+            ne = []
+            for lo, hi, cls in em:
+                d = lf.add(lf.to_lf(hi), lf.to_lf(lo), -1)
+                if lf.ask(f, "Ge", d):
+                    ne.append((lf.to_lf(lo), lf.to_lf(hi), cls))
+            empty = lf.ask(f, "Gt", lf.add(u, n1, -1))
+            got = ["%s..=%s" % (lf.fmt(lf.simplify(f, x)), lf.fmt(lf.simplify(f, y))) for x, y, _ in ne]
+            if empty:
+                return None if not ne else "emits %s after the last entry although nothing is pending" % got
+            want = "%s..=%s" % (lf.fmt(lf.simplify(f, u)), lf.fmt(lf.simplify(f, n1)))
+            if len(ne) != 1 or not lf.ask(f, "Eq", lf.add(ne[0][0], u, -1)) or not lf.ask(f, "Eq", lf.add(ne[0][1], n1, -1)):
+                return "when the input is exhausted the pending entries %s are emitted as %s" % (want, got or "nothing")
+            if vv is None or ne[0][2] != vv.tag:
+                return "the last run %s is emitted with another class" % want
+            return None
+
+        r = lf.forall(o.state.facts, pred)
+        if r is not None:
+            ebad.append("%s  [state: %s]" % (r, sh.describe()))
+        # the compressed rows must replace the generator's vector
+        me = o.state.heap.get(("arg", 0))
+        outv = me.fields[vec_i[0]] if isinstance(me, ip.Adt) else None
+        ids = {e[1] for e in o.state.events if e[0] == "emit"}
+        if not (isinstance(outv, ip.Opq) and outv.kind == "vec" and outv.data != ("input",)):
+            ebad.append("the generator's vector is not replaced by the compressed rows")
+        elif ids - {outv.data}:
+            ebad.append("rows are pushed into a vector other than the one stored back")
+
+    try:
+        shapes, n_paths, errors = ac.explore_loop(prog, world, key, [ip.Ref(("heap", ("arg", 0), ()))], on_step, on_end, letters_for=letters_for, new_n_of=new_n, init_state=init_state)
+    except ip.AnalysisError as e:
+        rep.analysis_error(rule, key, e, b.where())
+        return
+    if errors and not bad and not ebad:
+        rep.analysis_error(rule, key, ip.AnalysisError(errors[0]), b.where())
+        return
+    rep.ob(rule, "every loop step keeps `rows ∪ pending run = entries consumed`, each code point once and with its own class (%d state shapes, %d paths)" % (len(shapes), n_paths), not bad, "; ".join(sorted(set(bad))[:2]), b.where(), key="%s|step" % rule, sample=True)
+    rep.ob(rule, "the pending run is emitted, whole, once and with its class, when the input is exhausted", not ebad, "; ".join(sorted(set(ebad))[:2]), b.where(), key="%s|finish" % rule, sample=True)
+    rep.extra["bidi_state_shapes"] = [sh.describe() for sh in shapes]
+
+
 def run(tier):
     rep = Report("C15", tier, __doc__)
     prog = Program()
@@ -558,6 +667,7 @@ def run(tier):
     entry_kind_agreement(prog, rep)
     gap_semantics(prog, rep)
     merge_semantics(prog, rep)
+    bidi_run_semantics(prog, rep)
     rep.not_decided += [
         "values computed by run compression / gap tracking for arbitrary (unbounded) entry sequences",
         "ucd-parse's own line grammar",
